@@ -41,13 +41,15 @@ META = {
     "through __dict__, non-scalar dict keys, object arrays, file sets.",
     "rule": "case = (value, near-miss value, aspect) from a typed grammar (depth <= 4, width <= 4; scalars incl. the int64/long "
     "boundary, ±0.0, inf; str/bytes incl. separator look-alikes; list/tuple/set/frozenset/dict; attrs, slots and plain "
-    "objects; inline types; functions from generated source, exec'd without source, closures, lambdas; numpy arrays and "
+    "objects; inline types; functions from generated source, exec'd without source, closures, lambdas; functools.partial objects "
+    "and bound methods; numpy arrays and "
     "scalars of 9 dtypes, 11 shapes; shared sub-objects), or (context values, value) hashed with one Cache; distinct by "
     "canonical JSON of the pair and aspect; non-trivial = at least one of the two values is not a bare scalar",
     "assumptions": [
         "a lambda, like a function without retrievable source, is identified by its code object; the content of a function is its parameter list and body (name, annotations are not content; closure cells are C06's subject); "
         "a function without retrievable source is identified by its code object, name included",
-        "attrs attributes declared eq=False are not content (documented in bytes_repr)",
+        "attrs attributes declared eq=False are not content (documented in bytes_repr); neither is an entry of an instance __dict__ whose "
+        "value is a bound method (skipped by the fallback's is_special_or_method filter, whatever object the method is bound to)",
         "floats are compared by bit pattern (0.0 and -0.0 are different contents); NaN does not occur inside sets or as dict key",
         "id() is unique among simultaneously live objects; every object reachable from the hashed value stays alive during the call",
     ],
@@ -344,6 +346,20 @@ def correspondence(ctx):
         b1, b2 = ctx.rng.sample(["x * 2", "x * 3", "x + 1"], 2)
         lam = {"k": "func", "name": "f", "params": ["x"], "lambda": True}
         todo.append({"a": {**lam, "body": [b1]}, "b": {**lam, "body": [b2]}, "same": False, "aspect": "function:lambda-body"})
+    # partials and bound methods (D70, repaired): near misses in the wrapped function, one argument, one keyword, one attribute
+    # of the bound instance
+    for _ in range(ctx.pick(10, 120)):
+        a = H.gen_partial(ctx.rng, 2) if ctx.rng.random() < 0.6 else H.gen_method(ctx.rng, 2)
+        for _try in range(20):
+            m = H.mutate(ctx.rng, a)
+            if m is None or not H.valid(m[0]):
+                continue
+            try:
+                same = H.canon_key(a) == H.canon_key(m[0])
+            except KeyError:
+                continue
+            todo.append({"a": a, "b": m[0], "same": same, "aspect": m[1] if (not same or m[1].startswith("same:")) else "same:coincidence"})
+            break
     for i in range(0, len(todo), batch):
         run_pairs(ctx, todo[i : i + batch], moddir)
     cs = [gen_ctx(ctx.rng) for _ in range(n_ctx)]
